@@ -53,6 +53,7 @@ const PARTY: &[(&str, &str, bool)] = &[
 
 pub fn run(seed: u64, n: usize, out: &mut Out, tier: &str) {
     let mut r = Rng::new(seed);
+    crate::c12::type_table_oracle(out);
     for (u, s, third) in PARTY {
         for ty in ["script", "image"] {
             if let Ok(q) = adblock::request::Request::new(u, s, ty) {
